@@ -14,6 +14,55 @@ CHECKS = {
              "under several standards/compilers, at run time and in constant evaluation; random call logs of the real classes are validated against the spec.",
         note="Trusts TLC, the installed compilers, nlohmann::json in the harness; little-endian host; 32/64-bit value space sampled (patterns + seeded random), index space complete.",
         design="5/C15"),
+    "C01": dict(
+        category="model_checking",
+        technique="TLC model checking of View.tla against SbeImage.tla (StepRefines, EncodeRefines, MarginsIntact) + replay of every encode transition into sbeppc-generated accessors",
+        text="The operational layer (addresses derived from bytes read in the buffer) is model-checked against the denotational SBE image for every explored (schema, message, shape); "
+             "every transition of the in-order encoding script is replayed on the real generated classes: pre-buffer injected, real header filler / setter / group header / data assign called, whole region incl. margins compared.",
+        note="Scope: schema catalogue (tools/catalogue.py: all primitives, named/optional/array/enum/set/composite/ref/constant members, custom offsets, explicit blockLength, nested groups, data, 9 header layouts, LE+BE) x seeded shapes; trusts TLC, compilers, little-endian host.",
+        design="5/C01"),
+    "C02": dict(
+        category="model_checking",
+        technique="TLC model checking of DecodeRefines (View.tla vs SbeImage.tla) + replay of every image through every generated getter",
+        text="SbeImage.tla is an independent encoder; every explored image is decoded by every getter (fields, composite members at any depth, arrays, enums, sets, group sizes, entries, data) of the real generated classes on a read-only, exact-size, guard-paged buffer and compared bit-exactly.",
+        note="Same scope as C01. Float/double values are opaque byte patterns (all-zero, all-ones, asymmetric), which covers NaN payload bit-exactness as byte equality.",
+        design="5/C02"),
+    "C03": dict(
+        category="model_checking",
+        technique="TLC model checking of DecodeRefines/SizesAgree over per-level wire blockLength extensions + replay on inflated images",
+        text="Shapes extend the wire blockLength of every level independently (0/1/3 bytes); values, entry/group/data addresses and size_bytes of every view must match the image.",
+        note="Same scope as C01; cursor/visit traversal on inflated images is covered by C04/C19 when built.",
+        design="5/C03"),
+    "C05": dict(
+        category="model_checking",
+        technique="TLC model checking of SizesAgree/ImageSizes + replay of size_bytes of every view",
+        text="size_bytes of message, every group, entry and data member equals the length of the corresponding SBE image part for every explored shape.",
+        note="Small counts only here (0..2); type-maximum header values are exercised by C12's boundary vectors.",
+        design="5/C05"),
+    "C17": dict(
+        category="model_checking",
+        technique="TLC-emitted header-fill transitions over a header layout catalogue replayed into fill_message_header / fill_group_header",
+        text="fill_message_header / fill_group_header are steps of the encode script: for 9 header/dimension layouts (reordered, gaps, extra members, refs, uint8..64, counters) x 2 byte orders the bytes written (whole region incl. margins) and the returned header view are compared with the spec.",
+        note="Same trusted base as C01.",
+        design="5/C17"),
+    "C13": dict(
+        category="model_checking",
+        technique="TLC model checking of DynArray.tla (vector semantics vs byte effect) + replay of every transition x 24 instantiations + trace validation of long random op sequences (DynArrayTrace.tla)",
+        text="Exhaustive closure for capacity 3 (quick) / 4 (thorough) with every overload and every legal argument; each transition replayed on dynamic_array_ref directly and through generated <data> members for 4 length types x 2 byte orders x 3 element types; 400-op random logs validated by the trace spec.",
+        note="Don't-care zone between new and old end is nondeterministic in the spec (docs silent). Trusts TLC, compilers.",
+        design="5/C13"),
+    "C14": dict(
+        category="model_checking",
+        technique="TLC model checking of StaticArray.tla + replay of every transition into static_array_ref (direct and generated) + static_assert vectors + trace validation",
+        text="All N in 0..3 (quick) / 0..4 (thorough), all contents over {NUL,a,b}, every overload and eos mode; whole buffer incl. guard cells and returned iterator compared; constant evaluation via static_asserts.",
+        note="Trusts TLC, compilers.",
+        design="5/C14"),
+    "C16": dict(
+        category="model_checking",
+        technique="TLC model checking of Optional.tla (symbolic boundary tokens, reference comparison rules) + replay of every token pair into built-in and generated optional/required types + static_asserts",
+        text="11 primitives x 10 flavours x all ordered token pairs x all predicates (has_value, bool, value_or, in_range, six comparisons, <=>), default/nullopt construction, and the SBE default min/max/null table vs what built-in and generated types expose.",
+        note="FP default minValue: both readings (lowest / smallest positive normal) admitted because no normative source is available offline (see DESIGN.md).",
+        design="5/C16"),
 }
 
 NOT_YET = "check not built yet (construction in progress, DESIGN.md section 10)"
